@@ -119,6 +119,8 @@ class Endpoint(object):
         return hash(self.target)
 
     def __getattr__(self, name):
+        if name == "target" or (name.startswith("__") and name.endswith("__")):
+            raise AttributeError(name)
         return getattr(self.target, name)
 
 
